@@ -2,6 +2,7 @@ package svg
 
 import (
 	"fmt"
+	"math"
 	"net/url"
 	"strconv"
 	"strings"
@@ -85,8 +86,18 @@ func parseValue(s string) (Value, error) {
 			break
 		}
 	}
-	v, err := strconv.ParseFloat(s, 32)
+	v, err := parseFiniteFloat(s)
 	return Value{U: resolvedUnit, V: Fl(v)}, err
+}
+
+// parseFiniteFloat is strconv.ParseFloat restricted to the numbers of SVG:
+// "NaN", "Inf" and "Infinity", which ParseFloat accepts, are errors.
+func parseFiniteFloat(s string) (float64, error) {
+	v, err := strconv.ParseFloat(s, 32)
+	if err == nil && (math.IsNaN(v) || math.IsInf(v, 0)) {
+		err = fmt.Errorf("invalid number %q", s)
+	}
+	return v, err
 }
 
 // Resolve convert `v` to pixels, resolving percentage and
@@ -206,7 +217,7 @@ func parseOpacity(value string) (Fl, error) {
 		ratio = 100
 		value = strings.TrimSpace(value[:len(value)-1])
 	}
-	out, err := strconv.ParseFloat(value, 32)
+	out, err := parseFiniteFloat(value)
 	return Fl(out / ratio), err
 }
 
@@ -362,7 +373,7 @@ func parseOrientation(attr string) (Value, error) {
 	case "auto-start-reverse":
 		return Value{U: autoStartReverse}, nil
 	default:
-		f, err := strconv.ParseFloat(attr, 32)
+		f, err := parseFiniteFloat(attr)
 		return Value{V: Fl(f)}, err
 	}
 }
